@@ -36,6 +36,12 @@ A = [
     ("t = intern('ab' + 'cd')", "", "t"),
     ("t = host_str('hs') + 'x'", "", "t"),
     ("t = [a, t]", "at", ""),
+    ("t = (a, 1)", "a", "t"),
+    ("a.append(t)", "at", ""),
+    ("t = None", "", "t"),
+    ("a = None", "a", ""),
+    ("d['t'] = t", "dt", ""),
+    ("t = (d, (a,))", "ad", "t"),
     ("t = {'t': t}", "t", ""),
     ("def f(x = [0], l = [9]):\n    l.append(x)\n    return l", "", "f"),
     ("def f(x = None):\n    return [x, a]", "a", "f"),
@@ -89,6 +95,12 @@ def seq_programs(alphabet, L):
 
 
 SCENARIOS = [
+    # cycles through immutable containers, reached first from every possible root order
+    (["t = None\na = [1]\nt = (a, 2)\na.append(t)\nemit([a, t])\nb = [t]\nemit(b)\na = None\nemit([t, b])\n"], ["t", "b"]),
+    (["a = [1]\nt = (a, 2)\na.append(t)\nemit([a, t])\na = None\nemit(t)\nu = (t, t)\nemit(u)\nt = None\nemit(u)\n"], ["u"]),
+    (["t = None\nd = {}\nt = (d, [d])\nd['t'] = t\nemit(t)\ns = struct(t = t, d = d)\nemit(s)\nd = None\nemit([t, s])\n"], ["t", "s"]),
+    (["t = None\nu = None\na = []\nt = (a,)\nu = ((t, a), t)\na.append(u)\nemit(u)\nemit(t)\na.append(1)\nemit([a, t, u])\n"], ["t", "u", "a"]),
+    (["R = record(x = list, y = typing.Any)\nr = None\nl = [1]\nr = R(x = l, y = None)\nl.append(r)\nemit(r)\nl = None\nemit(r)\nq = (r, r.x)\nemit(q)\n"], ["r", "q"]),
     # (steps, freeze names)
     (["a = [1]\nb = [a]\na.append(b)\nd = {'a': a, 'b': b}\nd['d'] = d\nemit([a, b, d])\n"
       "def f(x, l = a):\n    l.append(x)\n    return [l, d]\nemit(f(3))\nc = f\nt = (c, [c])\nemit(f(4))\n"
